@@ -30,6 +30,19 @@ type seqSpec struct {
 	Q        []int  `json:"q,omitempty"`
 	Offset   int    `json:"offset"`
 	Circular bool   `json:"circular,omitempty"`
+	// Strand: 0 as constructed (plus), 1 minus, 2 none. The operations of this property work on the
+	// letters as stored, whatever strand the sequence is annotated with.
+	Strand int `json:"strand,omitempty"`
+}
+
+func (s seqSpec) strand() seq.Strand {
+	switch s.Strand {
+	case 1:
+		return seq.Minus
+	case 2:
+		return seq.None
+	}
+	return seq.Plus
 }
 
 func (s seqSpec) end() int { return s.Offset + len(s.L) }
@@ -65,11 +78,13 @@ func build(s seqSpec) sliceable {
 		x := linear.NewQSeq("src", ql, a, alphabet.Sanger)
 		x.Offset = s.Offset
 		x.Conform = conf
+		x.Strand = s.strand()
 		return x
 	}
 	x := linear.NewSeq("src", alphabet.BytesToLetters([]byte(s.L)), a)
 	x.Offset = s.Offset
 	x.Conform = conf
+	x.Strand = s.strand()
 	return x
 }
 
@@ -257,6 +272,7 @@ func checkTrunc(c truncCase) *vlib.Failure {
 func genSeqSpec(t *rapid.T, label string, maxLen int, pairedOnly bool) seqSpec {
 	s := seqSpec{Quality: rapid.Bool().Draw(t, label+"-quality"), Alpha: rapid.SampledFrom([]string{"DNA", "DNAredundant", "RNA", "Protein", "Protein", "PlainDNA", "PairedProtein"}).Draw(t, label+"-alpha"),
 		Offset: rapid.SampledFrom([]int{0, 0, 1, 5, 50, -1, -7, -50}).Draw(t, label+"-offset"), Circular: rapid.IntRange(0, 2).Draw(t, label+"-circular") == 0}
+	s.Strand = rapid.SampledFrom([]int{0, 0, 1, 2}).Draw(t, label+"-strand")
 	n := rapid.IntRange(0, maxLen).Draw(t, label+"-len")
 	pool := sm.Alpha(s.Alpha).Letters()
 	if p := sm.PairedLetters(s.Alpha); p != "" {
